@@ -1292,6 +1292,8 @@ def c18(v, tier, seed):
                 last = {"ret": [], "out": []}
             ev = {"e": "seq", "listener": lk, "classes": [cse["class"] + ("-x%d" % nsoak if kind == "soak" else "")] + (["good"] if kind in ("then-good", "soak") else []), "mode": [cse["m0"], cse["m1"]],
                   "n": n, "status": o["status"], "done": o["done"], "lastgood": 1 if kind in ("then-good", "soak") else 0,
+                  # the main loops of these four listeners end when the handler returns a negative value
+                  "fatal": 1 if (lk in ("can", "cvf", "aaf", "crf") and any(r_ < 0 for r_ in o["rets"])) else 0,
                   "last": last, "alone": alone.get((cse["m0"], cse["m1"]), {"ret": [], "out": []}) if lk != "crf" else {"ret": [], "out": []},
                   "bytes": hexs(cse["bytes"])[:3200]}
             if kind == "alone": ev["lastgood"] = 0
@@ -1301,7 +1303,7 @@ def c18(v, tier, seed):
     v.cov["evaluations"] += len(all_events)
     cfgt = open(os.path.join(SPEC, "ListenerTrace.cfg")).read()
     def keyfn(ev, evs=None, idx=None):
-        why = ev["status"].split(":")[0] if ev["status"] != "ok" else ("stuck" if ev["done"] != ev["n"] else "next-datagram-differs")
+        why = ev["status"].split(":")[0] if ev["status"] != "ok" else ("listener-terminates" if ev.get("fatal") else ("stuck" if ev["done"] != ev["n"] else "next-datagram-differs"))
         return "listener=%s class=%s%s outcome=%s" % (ev["listener"], ev["classes"][0], "+good" if ev["lastgood"] else "", why)
     # group the events so that one rejection does not hide the others of the same kind: validate per listener
     for lk in LISTENERS:
@@ -1310,7 +1312,7 @@ def c18(v, tier, seed):
         pdu.validate_events(v, wd, pdu.shard(evs, 4), "C18", "listener-" + lk, module="ListenerTrace", cfg=cfgt, keyfn=keyfn)
     # whatever the bounded resume did not reach is classified directly by the same rule (Safe), so no case is left unexamined
     for ev in all_events:
-        if not (ev["status"] == "ok" and ev["done"] == ev["n"] and (ev["lastgood"] == 0 or ev["last"] == ev["alone"])):
+        if not (ev["status"] == "ok" and not ev.get("fatal") and ev["done"] == ev["n"] and (ev["lastgood"] == 0 or ev["last"] == ev["alone"])):
             v.violation(keyfn(ev), "%s listener, datagram class %s (mode %s)%s: %s after %d of %d datagrams %s; datagram %s" % (
                 ev["listener"], ev["classes"][0], ev["mode"], " followed by the well-formed datagram" if ev["lastgood"] else "", ev["status"], ev["done"], ev["n"],
                 ev.get("report", ""), ev["bytes"][:160]), {"event": ev})
